@@ -120,6 +120,34 @@ struct Tally {
     history: u64,
 }
 
+fn history_write<T: crate::dynspec::Spec>(t: &mut Tape, w: &mut Wr<T>, spec: &SpecTable, open: &[u64], tl: &mut Tally) -> Result<(), String> {
+    let ms: Vec<&Elem> = spec.elems.iter().filter(|m| m.ty == Ty::Master && ref_match(&m.path, open)).collect();
+    if ms.is_empty() {
+        return Ok(());
+    }
+    let m = ms[t.below(ms.len())];
+    let mut inner = open.to_vec();
+    inner.push(m.id);
+    let n = 1 + t.below(3);
+    let mut ch = super::c19::good_children(t, spec, &inner, n);
+    let bad = if t.chance(1, 2) { super::c19::bad_child(t, spec, &inner) } else { None };
+    let want_ok = bad.is_none();
+    if let Some(b) = bad {
+        ch.push(b);
+    }
+    let r = w.apply(&WOp::Write(Flat::Full(m.id, ch.clone()), WOpt::Default));
+    tl.units += 1;
+    tl.nontrivial += 1;
+    tl.history += 1;
+    match (&r, want_ok) {
+        (Ok(()), true) => tl.aa += 1,
+        (Err(WErr::UnexpectedTag { .. }), false) => tl.rr += 1,
+        (Ok(()), false) => return Err(format!("writer ACCEPTED the Full master {:#x} under {:x?} although its last child {:?} is not allowed in it", m.id, open, ch.last())),
+        (Err(er), _) => return Err(format!("writer: Full master {:#x} with children {:?} under {:x?}: expected {}, got {:?}", m.id, ch, open, if want_ok { "Ok" } else { "UnexpectedTag" }, er)),
+    }
+    Ok(())
+}
+
 fn writer_side<T: crate::dynspec::Spec>(t: &mut Tape, spec: &SpecTable, chain: &[u64], tl: &mut Tally) -> Result<(), String> {
     let mut w = Wr::<T>::new(RecDest::new());
     let mut open: Vec<u64> = Vec::new();
@@ -128,29 +156,7 @@ fn writer_side<T: crate::dynspec::Spec>(t: &mut Tape, spec: &SpecTable, chain: &
         // the verdict depends on the open chain and the tag alone, not on what was written (or refused) before: now and then a whole
         // Full master goes first, acceptable or with a child that is not allowed in it; the offers that follow must come out the same
         if t.chance(1, 3) {
-            let ms: Vec<&Elem> = spec.elems.iter().filter(|m| m.ty == Ty::Master && ref_match(&m.path, &open)).collect();
-            if !ms.is_empty() {
-                let m = ms[t.below(ms.len())];
-                let mut inner = open.clone();
-                inner.push(m.id);
-                let n = 1 + t.below(3);
-                let mut ch = super::c19::good_children(t, spec, &inner, n);
-                let bad = if t.chance(1, 2) { super::c19::bad_child(t, spec, &inner) } else { None };
-                let want_ok = bad.is_none();
-                if let Some(b) = bad {
-                    ch.push(b);
-                }
-                let r = w.apply(&WOp::Write(Flat::Full(m.id, ch.clone()), WOpt::Default));
-                tl.units += 1;
-                tl.nontrivial += 1;
-                tl.history += 1;
-                match (&r, want_ok) {
-                    (Ok(()), true) => tl.aa += 1,
-                    (Err(WErr::UnexpectedTag { .. }), false) => tl.rr += 1,
-                    (Ok(()), false) => return Err(format!("writer ACCEPTED the Full master {:#x} under {:x?} although its last child {:?} is not allowed in it", m.id, open, ch.last())),
-                    (Err(er), _) => return Err(format!("writer: Full master {:#x} with children {:?} under {:x?}: expected {}, got {:?}", m.id, ch, open, if want_ok { "Ok" } else { "UnexpectedTag" }, er)),
-                }
-            }
+            history_write::<T>(t, &mut w, spec, &open, tl)?;
         }
         // offer every element under the current chain
         for e in &spec.elems {
@@ -199,6 +205,10 @@ fn writer_side<T: crate::dynspec::Spec>(t: &mut Tape, spec: &SpecTable, chain: &
         }
         if step == chain.len() {
             break;
+        }
+        // ... and sometimes right before the chain grows, so that whatever such a write leaves behind meets the next chain
+        if t.chance(1, 3) {
+            history_write::<T>(t, &mut w, spec, &open, tl)?;
         }
         // grow the chain
         let id = chain[step];
